@@ -84,8 +84,12 @@ func vpHostileName(sym string) string {
 	return zzvp.Str(sym, 1+zzvp.Choose(2), vpRefAlpha)
 }
 
-func vpHostileID(commit, tree, blob []byte) string {
-	switch zzvp.Choose(6) {
+func vpHostileID(tag string, commit, tree, blob []byte) string {
+	kinds := 6
+	if zzvp.Param("symids", 1) == 0 {
+		kinds = 3 // only ids of existing objects (commit / tree / blob); free hex strings are covered by the one-step harness
+	}
+	switch zzvp.Choose(kinds) {
 	case 0:
 		if commit != nil {
 			return vpHex(commit)
@@ -99,11 +103,48 @@ func vpHostileID(commit, tree, blob []byte) string {
 	case 2:
 		return vpHex(blob)
 	case 3:
-		return zzvp.Str("id40", 40, "0-9a-f")
+		return zzvp.Str(tag+"id40", 40, "0-9a-f")
 	case 4:
-		return zzvp.Str("id39", 39, "0-9a-f")
+		return zzvp.Str(tag+"id39", 39, "0-9a-f")
 	}
-	return zzvp.Str("id41", 41, "0-9a-fg")
+	return zzvp.Str(tag+"id41", 41, "0-9a-fg")
+}
+
+// vpHostileCmd runs one command with hostile arguments chosen by the solver / the explorer.
+func vpHostileCmd(tag string, commit, tree, blob []byte, path string) zzvp.Result {
+	var r zzvp.Result
+	t := tag
+	switch zzvp.Choose(12) {
+	case 0:
+		nm := []string{"main", "dev", "trunk", "nosuch"}[zzvp.Choose(4)]
+		r = zzvp.Run("update-ref", "refs/heads/"+nm, vpHostileID(t, commit, tree, blob))
+	case 1:
+		r = zzvp.Run("branch", vpHostileName(t + "bn"))
+	case 2:
+		r = zzvp.Run("branch", "-r", vpHostileName(t + "rn"))
+	case 3:
+		r = zzvp.Run("branch", "-d", vpHostileName(t + "dn"))
+	case 4:
+		r = zzvp.Run("switch", vpHostileName(t + "sn"))
+	case 5:
+		r = zzvp.Run("switch", "-c", vpHostileName(t + "cn"))
+	case 6:
+		mode := []string{"--soft", "--mixed", "--hard"}[zzvp.Choose(3)]
+		r = zzvp.Run("reset", mode, "HEAD@{"+zzvp.Str(t+"pos", 1, "0-9")+"}")
+	case 7:
+		r = zzvp.Run("restore", "--staged", []string{path, "nosuch", "."}[zzvp.Choose(3)])
+	case 8:
+		r = zzvp.Run("restore", []string{path, "nosuch"}[zzvp.Choose(2)])
+	case 9:
+		r = zzvp.Run("rm", []string{path, "nosuch"}[zzvp.Choose(2)])
+	case 10:
+		zzvp.WriteFile(zzvp.Root()+"/"+path, zzvp.Bytes(t+"newc", 1, ""))
+		vpOK(zzvp.Run("add", path))
+		r = zzvp.Run("commit", "-m", "next")
+	default:
+		r = zzvp.Run("config", "user.name", "Other")
+	}
+	return r
 }
 
 // VP_C03_Step: after any one command (hostile arguments included), whether it succeeded or was refused, the repository is connected
@@ -115,43 +156,36 @@ func VP_C03_Step() {
 	zzvp.Assume(vpFsck() == "")
 	cur := vpHeadRef()
 	_, curExisted, _ := vpBranch(cur)
-	var r zzvp.Result
-	switch zzvp.Choose(12) {
-	case 0:
-		nm := []string{"main", "dev", "trunk", "nosuch"}[zzvp.Choose(4)]
-		r = zzvp.Run("update-ref", "refs/heads/"+nm, vpHostileID(commit, tree, blob))
-	case 1:
-		r = zzvp.Run("branch", vpHostileName("bn"))
-	case 2:
-		r = zzvp.Run("branch", "-r", vpHostileName("rn"))
-	case 3:
-		r = zzvp.Run("branch", "-d", vpHostileName("dn"))
-	case 4:
-		r = zzvp.Run("switch", vpHostileName("sn"))
-	case 5:
-		r = zzvp.Run("switch", "-c", vpHostileName("cn"))
-	case 6:
-		mode := []string{"--soft", "--mixed", "--hard"}[zzvp.Choose(3)]
-		r = zzvp.Run("reset", mode, "HEAD@{"+zzvp.Str("pos", 1, "0-9")+"}")
-	case 7:
-		r = zzvp.Run("restore", "--staged", []string{path, "nosuch", "."}[zzvp.Choose(3)])
-	case 8:
-		r = zzvp.Run("restore", []string{path, "nosuch"}[zzvp.Choose(2)])
-	case 9:
-		r = zzvp.Run("rm", []string{path, "nosuch"}[zzvp.Choose(2)])
-	case 10:
-		zzvp.WriteFile(zzvp.Root()+"/"+path, zzvp.Bytes("newc", 1, ""))
-		vpOK(zzvp.Run("add", path))
-		r = zzvp.Run("commit", "-m", "next")
-	default:
-		r = zzvp.Run("config", "user.name", "Other")
-	}
+	r := vpHostileCmd("", commit, tree, blob, path)
 	zzvp.Assert(r.Exit == 0 || r.Exit == 1, "the command ends with status 0 or 1 (no crash)")
 	zzvp.Assert(vpFsck() == "", "the repository is still connected: HEAD names a branch, branches hold existing commits, snapshots and staged blobs exist")
 	zzvp.Assert(vpObjectsKept(before), "no command deletes a stored object or changes its content")
 	if curExisted {
 		_, nowExists, _ := vpBranch(vpHeadRef())
 		zzvp.Assert(nowExists, "HEAD keeps naming a branch that holds a commit")
+	}
+	zzvp.Done()
+}
+
+// VP_C03_Two: the same invariant after any TWO consecutive commands (thorough tier): the second command starts from whatever
+// the first one left behind, refused or not.
+func VP_C03_Two() {
+	lo := zzvp.Param("prefixmin", 0)
+	kind := lo + zzvp.Choose(zzvp.Param("prefixes", 4)-lo)
+	commit, tree, blob, path := vpPrefix(kind)
+	before := vpAllObjects()
+	zzvp.Assume(vpFsck() == "")
+	for step := 0; step < 2; step++ {
+		cur := vpHeadRef()
+		_, curExisted, _ := vpBranch(cur)
+		r := vpHostileCmd("s"+string(rune('0'+step)), commit, tree, blob, path)
+		zzvp.Assert(r.Exit == 0 || r.Exit == 1, "each command of the sequence ends with status 0 or 1")
+		zzvp.Assert(vpFsck() == "", "the repository is connected after each command of the sequence")
+		zzvp.Assert(vpObjectsKept(before), "no command of the sequence deletes a stored object or changes its content")
+		if curExisted {
+			_, nowExists, _ := vpBranch(vpHeadRef())
+			zzvp.Assert(nowExists, "HEAD keeps naming a branch that holds a commit")
+		}
 	}
 	zzvp.Done()
 }
